@@ -17,9 +17,12 @@
 (*               contents of the same names (read-only files) and, inside a directory output, an entry (0)    *)
 (*               that only the older version had.  The design removes a stale directory when its entry is     *)
 (*               unpacked; the pinned readTar() merged into it (Flaw_MergesStaleDir).                         *)
-(* Property: a reported hit restores exactly the stored set of files.                                        *)
+(*               The previous version's first output may also be a LINK to a file elsewhere (a hard link       *)
+(*               shared with the directory cache's entry of that version, or a symlink): the design replaces   *)
+(*               it; the pinned openFile() wrote through it when it had the permission (Flaw_WritesThrough).   *)
+(* Property: a reported hit restores exactly the stored set of files -- and retrieval changes nothing else.    *)
 EXTENDS Naturals, Sequences, FiniteSets, TLC, Json
-CONSTANTS MaxFiles, Flaw_HttpClosesNormally, Flaw_MergesStaleDir, Emit
+CONSTANTS MaxFiles, Flaw_HttpClosesNormally, Flaw_MergesStaleDir, Flaw_WritesThrough, Emit
 Kinds == {"http", "cmd"}
 VARIABLES kind, n,          \* cache kind, number of files to store
           readFaultAt,      \* 0 = none, else the file whose read fails
@@ -27,8 +30,10 @@ VARIABLES kind, n,          \* cache kind, number of files to store
           getFaultAt,       \* 0 = none, else the retrieval stream fails after this many entries
           getSilent,        \* the retrieval fault is not signalled (command exits 0 / connection closes cleanly): the stream just ends early
           stale,            \* the previous version's outputs are still in plz-out when the cache is asked
+          staleLink,        \* ... and the first of them is a link to a file outside the target's outputs (the "victim")
+          victimIntact,
           pc, sent, skipped, committed, result, restored
-vars == <<kind, n, readFaultAt, sendFaultAt, getFaultAt, getSilent, stale, pc, sent, skipped, committed, result, restored>>
+vars == <<kind, n, readFaultAt, sendFaultAt, getFaultAt, getSilent, stale, staleLink, victimIntact, pc, sent, skipped, committed, result, restored>>
 None == <<>>
 Init == /\ kind \in Kinds /\ n \in 1..MaxFiles
         /\ readFaultAt \in 0..MaxFiles /\ readFaultAt <= n
@@ -37,6 +42,7 @@ Init == /\ kind \in Kinds /\ n \in 1..MaxFiles
         /\ getSilent \in BOOLEAN /\ (getSilent => getFaultAt > 0)
         /\ (readFaultAt = 0 \/ sendFaultAt = 0)          \* one store fault per scenario
         /\ stale \in BOOLEAN /\ (stale => (readFaultAt = 0 /\ sendFaultAt = 0 /\ ~getSilent))
+        /\ staleLink \in BOOLEAN /\ (staleLink => stale) /\ victimIntact = TRUE
         /\ pc = "produce" /\ sent = <<>> /\ skipped = {} /\ committed = None /\ result = "none" /\ restored = {}
 AbortsOnReadFault == kind = "cmd" \/ ~Flaw_HttpClosesNormally
 Produce ==
@@ -48,26 +54,29 @@ Produce ==
           THEN IF AbortsOnReadFault THEN pc' = "aborted" /\ UNCHANGED <<sent, skipped>>
                ELSE skipped' = skipped \cup {i} /\ UNCHANGED <<pc, sent>>      \* warning, carry on
           ELSE sent' = Append(sent, i) /\ UNCHANGED <<pc, skipped>>
-  /\ UNCHANGED <<kind, n, readFaultAt, sendFaultAt, getFaultAt, getSilent, stale, committed, result, restored>>
+  /\ UNCHANGED <<kind, n, readFaultAt, sendFaultAt, getFaultAt, getSilent, stale, staleLink, victimIntact, committed, result, restored>>
 \* the consumer commits only a cleanly terminated stream
 Consume == /\ pc \in {"closed", "aborted"}
            /\ committed' = IF pc = "closed" THEN <<sent>> ELSE None
            /\ pc' = "stored"
-           /\ UNCHANGED <<kind, n, readFaultAt, sendFaultAt, getFaultAt, getSilent, stale, sent, skipped, result, restored>>
+           /\ UNCHANGED <<kind, n, readFaultAt, sendFaultAt, getFaultAt, getSilent, stale, staleLink, victimIntact, sent, skipped, result, restored>>
 \* what is left of the previous version after unpacking: only the entry no new file replaces, and only if directories are merged
 Leftover == IF stale /\ Flaw_MergesStaleDir THEN {0} ELSE {}
 Retrieve == /\ pc = "stored" /\ pc' = "done"
+            \* the first entry is unpacked whenever anything is committed and the stream does not fail before it
+            /\ victimIntact' = ~(staleLink /\ Flaw_WritesThrough /\ committed # None /\ Len(committed[1]) >= 1 /\ getFaultAt # 1)
             /\ IF committed = None THEN result' = "miss" /\ restored' = {}
                ELSE IF getFaultAt # 0 /\ getFaultAt <= Len(committed[1])
                     THEN result' = "miss" /\ restored' = {committed[1][j] : j \in 1..(getFaultAt - 1)}
                     ELSE result' = "hit" /\ restored' = {committed[1][j] : j \in 1..Len(committed[1])} \cup Leftover
-            /\ UNCHANGED <<kind, n, readFaultAt, sendFaultAt, getFaultAt, getSilent, stale, sent, skipped, committed>>
+            /\ UNCHANGED <<kind, n, readFaultAt, sendFaultAt, getFaultAt, getSilent, stale, staleLink, sent, skipped, committed>>
 Next == Produce \/ Consume \/ Retrieve
 Spec == Init /\ [][Next]_vars
 \* C13
 HitIsComplete == result = "hit" => restored = 1..n
+NoCollateral == victimIntact
 NoPartialCommit == committed # None => Len(committed[1]) = n
 EmitCase == (Emit /\ pc = "done") =>
    PrintT(<<"CASE", ToJson([kind |-> kind, files |-> n, readFaultAt |-> readFaultAt, sendFaultAt |-> sendFaultAt,
-                            getFaultAt |-> getFaultAt, getSilent |-> getSilent, stale |-> stale, expectCommitted |-> committed # None, expect |-> result])>>)
+                            getFaultAt |-> getFaultAt, getSilent |-> getSilent, stale |-> stale, staleLink |-> staleLink, expectCommitted |-> committed # None, expect |-> result])>>)
 =============================================================================
